@@ -183,3 +183,41 @@ Definition c9class (c : c9case) : nat :=
     | _ => 2
     end.
 Definition c9classes (cs : list c9case) : list nat := map c9class cs.
+
+(* ------------------------------------------------------------------------------------------------
+   C04 / C05: histories with in-place updates are run by the model as their functional meaning (see
+   harness/inplace.py); a named tensor denotes its latest node.  Per node: None = not observed;
+   Some (grad, const, value) with grad = None meaning "do not compare the gradient" (view members, see C06). *)
+Definition vobs := option (option (option zvec) * bool * zvec).
+(* "no gradient" and "an all-zero gradient" are identified here: whether a FULLY overwritten tensor is still formally an
+   operand of the update (zero gradient) or not (no gradient) is an implementation detail of the in-place machinery, and
+   the property only says that overwritten elements pass nothing to their old contents *)
+Definition all_zero (v : zvec) : bool := forallb (Z.eqb 0%Z) v.
+Definition ograd_eqz (a b : option zvec) : bool :=
+  match a, b with
+  | None, None => true
+  | Some x, Some y => zvec_eqb x y
+  | None, Some y => all_zero y
+  | Some x, None => all_zero x
+  end.
+Definition vobs_ok (st : gstate) (k : nat) (e : vobs) : bool :=
+  match e with
+  | None => true
+  | Some (g, c, v) =>
+      match g with None => true | Some g' => ograd_eqz (nth k (g_grad st) None) g' end &&
+      Bool.eqb (n_const st k) c && zvec_eqb (nth k (g_vals st) []) v
+  end.
+Fixpoint vsnap_ok_from (st : gstate) (k : nat) (es : list vobs) : bool :=
+  match es with [] => true | e :: es' => vobs_ok st k e && vsnap_ok_from st (S k) es' end.
+Definition fcase := (list stmt * list (nat * list vobs))%type.
+Definition fcase_ok (c : fcase) : bool :=
+  let '(h, snaps) := c in
+  let sts := run_states g_init h in
+  forallb (fun so => Nat.eqb (outcome_code (snd so)) 0) sts &&
+  forallb (fun sn => vsnap_ok_from (state_after sts (fst sn)) 0 (snd sn)) snaps.
+Fixpoint ffailing_from (i : nat) (cs : list fcase) : list nat :=
+  match cs with
+  | [] => []
+  | c :: cs' => if fcase_ok c then ffailing_from (S i) cs' else i :: ffailing_from (S i) cs'
+  end.
+Definition ffailing cs := ffailing_from 0 cs.
